@@ -260,7 +260,7 @@ func setupDelayHook() {
 	})
 }
 
-const gateDeadline = 3 * time.Second
+const gateDeadline = 20 * time.Second
 
 func (run *c01Run) onRecord(r *envlab.Record) {
 	if r.Kind != envlab.KEnvEvent {
@@ -299,6 +299,12 @@ func (run *c01Run) block(req *request) {
 	waiting := 0
 	for {
 		run.mu.Lock()
+		if run.cur != nil && run.cur != req {
+			// another request published an event while this body holds the transition mutex:
+			// the overlap is on record (oracle 2 will report it), no point in waiting
+			run.mu.Unlock()
+			break
+		}
 		waiting = 0
 		for _, q := range run.reqOf {
 			if q != req && q.delayed && !q.entered {
@@ -712,14 +718,13 @@ func checkC01(out *c01Outcome) (vs []viol, cnt map[string]int64, lockOrder strin
 	// rejected teardowns (no event published): what they saw must have been a state of their window
 	for _, q := range floating {
 		if q.Op != "TEARDOWN" {
-			o.hit(q.Begin, "NO-EVENT/"+q.Op, fmt.Sprintf("request %d %s returned (%q) without publishing any event", q.ID, q.Op, q.Err))
-			continue
+			return o.v, o.cnt, "", fmt.Sprintf("request %d %s returned (%q) without any captured event", q.ID, q.Op, q.Err)
 		}
 		o.cnt["teardowns_rejected"]++
 		win := o.statesDuring(q.Begin, q.End)
 		switch {
 		case q.Err == "":
-			o.hit(q.Begin, "TEARDOWN-SILENT", fmt.Sprintf("teardown request %d returned nil without publishing any event", q.ID))
+			return o.v, o.cnt, "", fmt.Sprintf("teardown request %d returned nil without any captured event", q.ID)
 		case strings.Contains(q.Err, "already in DONE") || strings.Contains(q.Err, "no environment with id"):
 			o.cnt["illegal_requests"]++
 			o.cnt["illegal_teardown_after_done"]++
@@ -733,7 +738,7 @@ func checkC01(out *c01Outcome) (vs []viol, cnt map[string]int64, lockOrder strin
 				o.hit(q.Begin, "STATE/teardown-rejected-saw="+s+"/model="+setString(win), fmt.Sprintf("teardown request %d was refused because of state %s, which the environment did not have during the request", q.ID, s))
 			}
 		default:
-			o.hit(q.Begin, "TEARDOWN-ERROR/unexpected", fmt.Sprintf("teardown request %d: %q", q.ID, q.Err))
+			return o.v, o.cnt, "", fmt.Sprintf("teardown request %d failed before its first event with an unknown error: %q", q.ID, q.Err)
 		}
 	}
 	// CurrentState() / CurrentTransition() sampled by the caller after its request returned
@@ -752,6 +757,9 @@ func checkC01(out *c01Outcome) (vs []viol, cnt map[string]int64, lockOrder strin
 			} else if p.First <= q.End {
 				quiet = false
 			}
+		}
+		if quiet && last != nil && last.Op != "TEARDOWN" && last.Legal && !last.AfterRan && q.CtAfter != "" {
+			o.cnt["ct_stale_after_cancelled_transition"]++ // observed, not judged (see assumptions)
 		}
 		if quiet && last != nil && last.Op != "TEARDOWN" && last.Legal && last.AfterRan {
 			o.cnt["quiescent_transition_samples"]++
@@ -984,6 +992,15 @@ func runC01() {
 			continue
 		}
 		vs, cnt, order, why := checkC01(out)
+		seen := map[string]bool{}
+		for _, v := range vs {
+			if seen[v.Class] {
+				continue
+			}
+			seen[v.Class] = true
+			c.Violation(v.Rule, v.Class, v.Detail, id, map[string]interface{}{"case": cs, "lock_order": order,
+				"records_around": slimRecords(window(out.Records, v.Seq, 45, 8))})
+		}
 		if out.Stuck {
 			c.Inconclusive(fmt.Sprintf("case %d/k%d: %s", cs.Idx, cs.K, strings.Join(out.Anomalies, "; ")))
 			return // goroutines of the stuck case are still inside the environment code: stop this batch
@@ -1008,15 +1025,6 @@ func runC01() {
 		}
 		if order != "" {
 			c.Interleaving(vlib.Hash(order))
-		}
-		seen := map[string]bool{}
-		for _, v := range vs {
-			if seen[v.Class] {
-				continue
-			}
-			seen[v.Class] = true
-			c.Violation(v.Rule, v.Class, v.Detail, id, map[string]interface{}{"case": cs, "lock_order": order,
-				"records_around": slimRecords(window(out.Records, v.Seq, 45, 8))})
 		}
 		if samples < 2 && cs.K > 1 {
 			c.Sample(map[string]interface{}{"k": cs.K, "callers": cs.Callers, "lock_order": order})
